@@ -16,6 +16,7 @@ import aux_mii_layout as L
 import aux_c19_real as R
 import aux_c19_walks as W
 import aux_c19_bounds as B
+import aux_c19_wire as X
 from aux_c19_real import hx, cps
 
 LEVEL = "proof"
@@ -722,6 +723,8 @@ def run(ctx):
     W.hpp_walks(ctx, rng, C, oracle_fail, quick)
     W.nasc_walks(ctx, rng, C, oracle_fail, quick)
     W.nnas_grid(ctx, rng, C, oracle_fail, quick)
+    # EVERY request one call puts on the wire (servers whose first answer is each documented error / retry flag): aux_c19_wire.py
+    X.wire_families(ctx, rng, C, oracle_fail, quick)
     # one ProdInfo object: the keys dict it was given and its data are replaced between calls
     walk_ctrs = B.carry_values(rng, 128, 16, quick)
     for w in range(1 if quick else 6):
